@@ -105,6 +105,15 @@ func genC25(seed uint64, tier string) any {
 		sc.Phases = append(sc.Phases, ph)
 		dir = 1 - dir
 	}
+	tot := 0
+	for _, ph := range sc.Phases {
+		for _, w := range ph.Writes {
+			tot += w
+		}
+	}
+	if sc.Net.Window > 0 && sc.Net.Window < 1500 && tot > 6000 {
+		sc.Net.Window = 4096 // a tiny send window with a large stream only multiplies scheduler steps
+	}
 	if faulty {
 		nf := r.Pick([]int{0, 6, 2, 1})
 		kinds := []string{"flip", "flip", "flip", "drop", "dup", "swap", "replay", "trunc", "insert"}
@@ -150,6 +159,7 @@ func execC25(t *testing.T, scAny any, keepLog bool) *Outcome {
 	kit.Bubble(t, func() {
 		run := newSimRun(sc.Seed, sc.Tape, keepLog)
 		s := run.S
+		s.MaxSteps = 300000
 		ecfg := EndCfg{MinVersion: sc.Version, MaxVersion: sc.Version, Suites: []uint16{sc.Suite}, ForceSuites: true, KeyKind: sc.Key, NoBEAST: sc.NoBEAST, NoDynRec: sc.NoDyn, NoTickets: true}
 		scfg := serverConfig(ecfg, s, run.R.Derive("srv-rand"))
 		ccfg := clientConfig(ecfg, s, run.R.Derive("cli-rand"))
